@@ -10,6 +10,8 @@ from ..program import Program, dotted, norm
 from ..report import AnalysisError
 from ..flow import guards_of, facts, stores
 from .. import shapes as S
+from ..algebra import SymEval, C, L, Rat, run_block
+from fractions import Fraction
 
 PD = 'cherab/openadas/parse/'
 FILES = [PD + 'adf11.py', PD + 'adf12.py', PD + 'adf15.py', PD + 'adf21.py', PD + 'adf22.py', PD + 'utility.py', 'cherab/openadas/install.py',
@@ -264,15 +266,66 @@ def _r2(run, prog, inst, mods):
     for st in ast.walk(nf):
         if isinstance(st, ast.Assign) and isinstance(st.targets[0], ast.Subscript) and isinstance(st.targets[0].slice, ast.Constant):
             got[st.targets[0].slice.value] = (st.targets[0], st.value)
-    want11 = {'ne': 'PerCm3ToPerM3.to(10 ** %s[i][j][\'ne\'])', 'te': '10 ** %s[i][j][\'te\']', 'rates': 'Cm3ToM3.to(10 ** %s[i][j][\'rates\'])'}
-    for k, w in want11.items():
+    factors = {'PerCm3ToPerM3': 10 ** 6, 'Cm3ToM3': Fraction(1, 10 ** 6), 'AngstromToNm': Fraction(1, 10)}
+
+    class ConvEval(SymEval):
+        def call(self, n):
+            f = n.func
+            if isinstance(f, ast.Attribute) and f.attr in ('to', 'inv') and isinstance(f.value, ast.Name) and f.value.id in factors and len(n.args) == 1:
+                v = self.ev(n.args[0])
+                return v * C(factors[f.value.id]) if f.attr == 'to' else v / C(factors[f.value.id])
+            return super().call(n)
+
+        def attribute(self, n):
+            if n.attr == 'conversion_factor' and isinstance(n.value, ast.Name) and n.value.id in factors:
+                return C(factors[n.value.id])
+            return super().attribute(n)
+
+        def ev(self, n):
+            if isinstance(n, ast.BinOp) and isinstance(n.op, ast.Pow) and isinstance(n.left, ast.Constant) and n.left.value == 10:
+                return L('pow10(%s)' % super().ev(n.right).key())
+            return super().ev(n)
+    ce = ConvEval()
+    run_block(ce, [st for lp in ast.walk(nf) if isinstance(lp, ast.For) for st in lp.body if (isinstance(st, ast.Assign) and isinstance(st.targets[0], ast.Name)) or isinstance(st, ast.AugAssign)])
+    want11 = {'ne': C(10 ** 6), 'te': C(1), 'rates': C(Fraction(1, 10 ** 6))}
+    for k, fac in want11.items():
         run.subject('C08-R2')
         g = got.get(k)
-        if g is not None and norm(g[1]) == w % src and norm(g[0]).replace(' ', '') == "rate_cherab[i][j+charge_correction]['%s']" % k:
-            run.ok('C08-R2', 'ADF11 ' + k, norm(g[1]))
+        if g is None or norm(g[0]).replace(' ', '') != "rate_cherab[i][j+charge_correction]['%s']" % k:
+            run.fail('C08-R2', K + 'conversion:' + k, inst.relpath, nf.lineno, "ADF11 '%s' is not stored at rate_cherab[element][charge + offset]['%s']: %s" % (k, k, norm(g[0]) if g else None))
+            continue
+        val = ce.ev(g[1])
+        want = fac * L("pow10(%s[i,j,const:'%s'])" % (src, k))
+        want_alt = fac * L('pow10(%s)' % SymEval().ev(ast.parse("%s[i][j]['%s']" % (src, k), mode='eval').body).key())
+        if val.eq(want) or val.eq(want_alt):
+            run.ok('C08-R2', 'ADF11 ' + k, '%s * 10^x' % fac.key())
         else:
-            run.fail('C08-R2', K + 'conversion:' + k, inst.relpath, nf.lineno, "ADF11 '%s' is converted as %s = %s; documented: %s" % (
-                k, norm(g[0]) if g else None, norm(g[1]) if g else None, w % src))
+            ratio = val / want_alt
+            if ratio.is_const():
+                run.fail('C08-R2', K + 'conversion:' + k, inst.relpath, nf.lineno,
+                         "ADF11 '%s' is converted as %s: off by the factor %s from the documented %s * 10^x" % (k, norm(g[1]), ratio.const_value(), fac.key()))
+            else:
+                run.undecided('C08-R2', 'ADF11 ' + k, 'conversion written in a form the algebra does not recognise: %s' % norm(g[1]))
+    # the converter must not modify the parser output in place (the parser shares one axis array between charge states)
+    run.subject('C08-R2')
+    tainted = {src}
+    changed = True
+    while changed:
+        changed = False
+        for t, v, st in stores(nf):
+            if isinstance(st, ast.Assign) and isinstance(t, ast.Name) and t.id not in tainted and isinstance(v, (ast.Subscript, ast.Name, ast.Attribute)) \
+                    and any(isinstance(x, ast.Name) and x.id in tainted for x in ast.walk(v)):
+                tainted.add(t.id)
+                changed = True
+    inplace = [st for st in ast.walk(nf) if isinstance(st, ast.AugAssign) and any(isinstance(x, ast.Name) and x.id in tainted for x in ast.walk(st.target))]
+    inplace += [st for t, v, st in stores(nf) if isinstance(st, ast.Assign) and isinstance(t, ast.Subscript) and isinstance(t.value, ast.Name) and t.value.id in tainted - {src}]
+    inplace += [st for t, v, st in stores(nf) if isinstance(st, ast.Assign) and isinstance(t, ast.Subscript) and norm(t).startswith(src + '[')]
+    if inplace:
+        run.fail('C08-R2', K + 'in-place', inst.relpath, inplace[0].lineno,
+                 "_notation_adf11_adas2cherab modifies the parser output in place ('%s'): the parser shares one density/temperature array between all "
+                 "charge states, so the conversion is applied repeatedly to later charge states" % norm(inplace[0]))
+    else:
+        run.ok('C08-R2', 'ADF11 converter purity', 'the parsed tables are not modified in place')
     run.subject('C08-R2')
     iff = [s for s in nf.body if isinstance(s, ast.If)]
     okc = False
@@ -550,6 +603,49 @@ def _r5(run, mods):
     else:
         run.fail('C08-R5', 'cherab.openadas.parse.utility|readvalues|framing', mu.relpath, rv.lineno,
                  'readvalues does not read values_per_line 10-character fields per line (new line when the count is a multiple of values_per_line)')
+    # ADF12: the five scans (energy, temperature, density, Zeff, B) appear in the same order in the reference values, the
+    # point counts and the scan blocks
+    m12 = mods['adf12']
+    pb = m12.functions.get('_parse_block')
+    run.subject('C08-R5')
+    if pb is None:
+        raise AnalysisError('anchored function vanished: _parse_block')
+
+    def kind(nm):
+        n = nm.lower().strip("'")
+        if 'ener' in n or 'beam' in n or n.startswith('eb'):
+            return 'E'
+        if 'tiev' in n or n.startswith('ti') or n == 'nti':
+            return 'T'
+        if 'dens' in n or n.startswith(('ni', 'ndi')):
+            return 'N'
+        if 'ze' in n:
+            return 'Z'
+        if 'bmag' in n or n in ('nb', 'bref', 'b'):
+            return 'B'
+        return '?'
+    seqs = {}
+    for st in pb.body:
+        if isinstance(st, ast.Assign) and isinstance(st.targets[0], ast.Tuple) and len(st.targets[0].elts) == 5:
+            names = [e.id for e in st.targets[0].elts]
+            seqs['refs' if any('ref' in x for x in names) else 'counts'] = [kind(x) for x in names]
+    scans = []
+    for st in pb.body:
+        if isinstance(st, ast.Assign) and isinstance(st.targets[0], ast.Subscript) and norm(st.targets[0].value) == 'rate' and isinstance(st.value, ast.Subscript) \
+                and isinstance(st.value.slice, ast.Slice):
+            key = st.targets[0].slice.value
+            cnt = norm(st.value.slice.upper)
+            scans.append((key, cnt))
+    scan_kinds = [kind(k) for k, c in scans if not k.startswith('Q')]
+    count_used = [(kind(k), kind(c)) for k, c in scans]
+    ok = seqs.get('refs') == ['E', 'T', 'N', 'Z', 'B'] and seqs.get('counts') == ['E', 'T', 'N', 'Z', 'B'] and scan_kinds == ['E', 'T', 'N', 'Z', 'B'] \
+        and all(a == b for a, b in count_used) and len(scans) == 10
+    if ok:
+        run.ok('C08-R5', 'ADF12 scan order', 'reference values, point counts and scan blocks all in the order E, T, N, Zeff, B; each scan cut to its own count')
+    else:
+        run.fail('C08-R5', 'cherab.openadas.parse.adf12|_parse_block|scan-order', m12.relpath, pb.lineno,
+                 'ADF12 block: reference values %s, point counts %s, scans %s with counts %s -- the five scans are not handled in one consistent order '
+                 '(a scan would be cut or padded to another scan\'s length)' % (seqs.get('refs'), seqs.get('counts'), scan_kinds, count_used))
     run.floor('C08-R5', 4)
 
 
@@ -564,6 +660,8 @@ MUTANTS = [
     dict(name='conversion-dropped', file=_A12, find="'ni': PerCm3ToPerM3.to(np.array(rate['DENSI'], np.float64)),", replace="'ni': np.array(rate['DENSI'], np.float64),", expect='C08-R2'),
     dict(name='conversion-doubled', file=_IN, find='rate_cherab[i][j + charge_correction]["te"] = 10**rate_adas[i][j]["te"]', replace='rate_cherab[i][j + charge_correction]["te"] = 10**(10**rate_adas[i][j]["te"])', expect='C08-R2'),
     dict(name='plt-charge-offset-removed', file=_IN, find='if filetype in ["scd", "plt", "pls"]:', replace='if filetype in ["scd", "pls"]:', expect='C08-R2'),
+    dict(name='adf12-counts-unpacked-in-other-order', file=_A12, find="nbeam, nti, ndi, nze, nb = readvalues(file, 5, 6, type=int)", replace="nbeam, nti, ndi, nb, nze = readvalues(file, 5, 6, type=int)", expect='C08-R5'),
+    dict(name='converter-mutates-parser-output', file=_IN, find='            rate_cherab[i][j + charge_correction]["te"] = 10**rate_adas[i][j]["te"]', replace='            rate_adas[i][j]["te"] += 0.0\n            rate_cherab[i][j + charge_correction]["te"] = 10**rate_adas[i][j]["te"]', expect='C08-R2'),
     dict(name='swapaxes-removed', file=_A11, find="np.swapaxes(rates_table, 0, 1)", replace="rates_table", expect='C08-R5'),
     dict(name='type-map-entry-changed', file=_A15, find="        elif rate_type_adas == 'RECOM':\n            rate_type = 'recombination'", replace="        elif rate_type_adas == 'RECOM':\n            rate_type = 'excitation'", occurrence=1, of=3, expect='C08-R3'),
     dict(name='header-check-removed', file=_A11, find="        if element.atomic_number != z_nuclear or element.name != element_name:", replace="        if False:", expect='C08-R4'),
@@ -579,5 +677,6 @@ MUTANTS = [
 ]
 MUTANTS = [m for m in MUTANTS if m.get('expect')]
 TWINS = [
+    dict(name='conversion-written-as-product', file=_IN, find='rate_cherab[i][j + charge_correction]["ne"] = PerCm3ToPerM3.to(10**rate_adas[i][j]["ne"])', replace='rate_cherab[i][j + charge_correction]["ne"] = 10**rate_adas[i][j]["ne"] * PerCm3ToPerM3.conversion_factor'),
     dict(name='message-text', file=_A15, find="Unable to parse ADF15 metadata.", replace="Could not parse the ADF15 metadata."),
 ]
